@@ -13,12 +13,17 @@ META = {
             "a brute-force reference: file only on a complete match without trailing slash, directory with the "
             "remainder, method check, index/default/miss; registration order irrelevant), service_set.go (user tier "
             "only with c.User != \"\", admin tier only if isAdmin, ServeInternal's three tiers only if admin) and "
-            "host_mux.go (exact host only); the tier/auth skeletons and the router's conditions are re-read from "
+            "host_mux.go (exact host only), the HTTP entry (the routed string is exactly URL.Path, segments canonical, "
+            "slashes/escapes; ErrCode table; ServeInternal with identity-preserving handlers gates ALL tiers; nil "
+            "handlers refused; scope register-then-serve backed by repository scans and a -race stream); the tier/auth "
+            "skeletons, the router's conditions, NewContext's sources and the ErrCode switch are re-read from "
             "/repo by a go/ast translator on every run, and all models are tied to the code by differential runs "
             "through the public API with tagging handlers, evaluated inside Coq.",
     "note": "Trusted: Coq kernel + vm_compute; translator gen/aries.go; harness/cmd/c20 + checks/c20.py; "
-            "aries/verif_export.go (read-only trie dump). Go maps, net/http request construction and errcode are "
-            "modelled, not verified; IsAdmin callbacks are modelled as pure; no axioms.",
+            "aries/verif_export.go (read-only trie dump). Go maps and errcode are modelled, not verified; net/http's "
+            "request parsing (ReadRequest, url.ParseRequestURI, unescape, Host/OPTIONS * handling) is a named trusted "
+            "model (Entry.v http_parse) checked against a real http.Server on raw request lines; IsAdmin callbacks are "
+            "modelled as pure; concurrent registration is out of scope (unsupported by the code); no axioms.",
     "technique": "Coq proof (nested induction over trie nodes, simulation against scan references) + go/ast "
                  "translation of statement skeletons + vm_compute correspondence + brute-force implementation oracle",
 }
@@ -58,7 +63,11 @@ def cz(z):
 
 
 MUXOP = {"prefix": "OpPrefix", "exact": "OpExact", "dir": "OpDir"}
-ERR = {"nil": 0, "miss": 1, "badmethod": 2, "panic": 3}
+ERR = {"nil": 0, "miss": 1, "badmethod": 2, "panic": 3,
+       "e:notfound": 4, "e:internal": 5, "e:unauth": 6, "e:invalid": 7, "e:plain": 8}
+LEAF = {"": 0, "notfound": 4, "internal": 5, "unauth": 6, "invalid": 7, "plain": 8}
+STATUS = {"nil": 200, "miss": 404, "badmethod": 400, "panic": 0, "e:notfound": 404, "e:internal": 500,
+          "e:unauth": 403, "e:invalid": 400, "e:plain": 500}
 EV = {"auth": 0, "resource": 1, "guest": 2, "user": 3, "admin": 4, "setup": 5, "signin": 6, "redirect": 7}
 RES = {"nil": 0, "miss": 1, "needsignin": 2, "panic": 3}
 ISADMIN = {"nil": 0, "true": 1, "false": 2, "lvl2": 3, "root": 4}
@@ -83,7 +92,7 @@ def cbeh(b):
 
 def op_method(x):
     """Get/Post are MethodFile with the net/http method names."""
-    return {"get": "GET", "post": "POST"}.get(x["op"], x.get("m", ""))
+    return {"get": "GET", "post": "POST", "jsoncall": "POST", "call": "POST"}.get(x["op"], x.get("m", ""))
 
 
 def paths_of(c, sets):
@@ -112,21 +121,38 @@ def to_coq(c, sets):
         qs = "Q_seg" if c.get("sqset") == "segq" else clist(clist(cs(s) for s in q) for q in c.get("sq") or [])
         finds = clist("(%d%%nat, %s, %s)" % (f["n"], cs(f["v"]), cs(f["x"])) for f in o.get("sfinds") or [])
         return "CSeg %s %s %s %s" % (adds, clist(str(x) for x in o.get("oks") or []), qs, finds)
-    if k == "router":
+    if k in ("router", "entry"):
+        def hh(x):
+            return "None" if x.get("nil") else "(Some %d)" % x["h"]
+
         def rop(x):
             if x["op"] == "index":
-                return "RIndex %d" % x["h"]
+                return "RIndex %s" % hh(x)
             if x["op"] == "default":
-                return "RDefault %d" % x["h"]
+                return "RDefault %s" % hh(x)
             if x["op"] in ("dir", "dirsvc"):
-                return "RDir %s %d" % (cs(x.get("p", "")), x["h"])
-            return "RFile %s %s %d" % (cs(op_method(x)), cs(x.get("p", "")), x["h"])
+                return "RDir %s %s" % (cs(x.get("p", "")), hh(x))
+            if x["op"] == "call":
+                return "RCall %s %s" % (cs(x.get("p", "")), hh(x))
+            return "RFile %s %s %s" % (cs(op_method(x)), cs(x.get("p", "")), hh(x))
         defs = clist(clist(rop(x) for x in d["ops"]) for d in c["routers"])
+        le = clist("(%d, %d)" % (x["h"], LEAF[x["e"]]) for d in c["routers"] for x in d["ops"] if x.get("e"))
         roks = clist(clist(str(x) for x in r) for r in o.get("roks") or [])
-        reqs = clist("(%s, %s)" % (cs(q["path"]), cs(q["method"])) for q in c.get("reqs") or [])
-        obs = clist("(%s, %s, %d)" % (cz(q["tag"]), cs(q.get("rel", "")), ERR.get(q["err"], 7))
-                    for q in o.get("reqs") or [])
-        return "CRouter %s %s %s %s" % (defs, roks, reqs, obs)
+        if k == "router":
+            reqs = clist("(%s, %s)" % (cs(q["path"]), cs(q["method"])) for q in c.get("reqs") or [])
+            obs = clist("(%s, %s, %d)" % (cz(q["tag"]), cs(q.get("rel", "")), ERR.get(q["err"], 99))
+                        for q in o.get("reqs") or [])
+            return "CRouter %s %s %s %s %s" % (defs, le, roks, reqs, obs)
+        raws = clist("RawReq %s %s %s %s" % (cs(q["method"]), cs(q["target"]),
+                                            "None" if q.get("host") is None else "(Some %s)" % cs(q["host"]),
+                                            cbool(not q.get("p10")))
+                     for q in c.get("raws") or [])
+        obs = clist("(%d, %s, %s, %s, %s, %s, %s, %s)" % (
+            e["status"], cbool(e["reached"]), cs(e["path"]), clist(cs(x) for x in e.get("segs") or []),
+            cbool(e["isdir"]), cs(e["host"]), cz(e["tag"]), cs(e.get("rel", ""))) for e in o.get("entry") or [])
+        return "CEntry %s %s %s %s %s %s" % (
+            cbool(c.get("hmux", False)), clist("(%s, %d)" % (cs(h["h"]), h["f"]) for h in c.get("hsets") or []),
+            defs, le, raws, obs)
     if k == "tiers":
         a = c["auth"]
         setup = "None"
@@ -252,65 +278,168 @@ def segs(p):
     return [s for s in p.split("/") if s != ""]
 
 
-def oracle_router(c, sets):
-    o = c["obs"]
+def ref_routers(c, flags):
+    """Reference registry: per router index/default/nodes keyed by the segment tuple; returns
+    (routers, complaint)."""
     routers = []
-    for d, flags in zip(c["routers"], o.get("roks") or []):
+    for d, fl in zip(c["routers"], flags):
         r = {"index": None, "default": None, "nodes": {}}
         routers.append(r)
-        for op, ok in zip(d["ops"], flags):
-            if op["op"] == "index":
-                r["index"] = op["h"]
-                want = 1
-            elif op["op"] == "default":
-                r["default"] = op["h"]
+        for op, ok in zip(d["ops"], fl):
+            nil = bool(op.get("nil"))
+            if op["op"] in ("index", "default"):
+                r[op["op"]] = None if nil else (op["h"], op.get("e", ""))   # a nil Func means "none"
                 want = 1
             else:
                 rt = tuple(segs(op.get("p", "")))
-                if not rt:
-                    want = 2
+                if nil:
+                    want = 2                                   # "function is nil"
+                elif not rt:
+                    want = 2                                   # empty route
                 elif rt in r["nodes"]:
-                    want = 0
+                    want = 2 if op["op"] == "call" else 0      # Call = JSONCallMust panics when refused
                 else:
                     want = 1
-                    r["nodes"][rt] = (op["op"] in ("dir", "dirsvc"), op_method(op), op["h"])
+                    r["nodes"][rt] = (op["op"] in ("dir", "dirsvc"), op_method(op), (op["h"], op.get("e", "")))
             if want != ok:
-                return ("registering %r answered %d (1 ok, 0 duplicate, 2 panic), expected %d" % (op, ok, want),
-                        {"op": op, "class": "register"})
+                return routers, ("registering %r answered %d (1 ok, 0 duplicate, 2 panic), expected %d"
+                                 % (op, ok, want), {"op": op, "class": "register"})
+    return routers, None
 
-    def serve(i, rest, isdir, method, depth):
-        if depth > 8:
-            return (-9, "", "loop")
-        r = routers[i]
 
-        def call(h, rest):
-            if h >= 1000 and h - 1000 < len(routers):
-                return serve(h - 1000, rest, isdir, method, depth + 1)
-            return (h, "/".join(rest), "nil")
+def ref_serve(routers, i, rest, isdir, method, depth=0):
+    """Brute force: index on an empty remainder; the longest registered segment-wise prefix; a directory
+    gets the remainder, a file needs a complete match of a path without trailing slash; method; else
+    default/miss.  Returns (leaf tag, rel seen by the leaf, result class)."""
+    if depth > 8:
+        return (-9, "", "loop")
+    r = routers[i]
 
-        def notfound(rest):
-            return call(r["default"], rest) if r["default"] is not None else (-1, "", "miss")
-        if not rest:
-            return call(r["index"], rest) if r["index"] is not None else notfound(rest)
-        for k in range(len(rest), 0, -1):       # longest registered segment-wise prefix
-            n = r["nodes"].get(tuple(rest[:k]))
-            if n is None:
-                continue
-            isd, m, h = n
-            rem = rest[k:]
-            if isd or (not rem and not isdir):  # files only on a complete match
-                if m != "" and m != method:
-                    return (-1, "", "badmethod")
-                return call(h, rem)
-            return notfound(rem)
-        return notfound(rest)
+    def call(h, rest):
+        tag, e = h
+        if tag >= 1000 and tag - 1000 < len(routers):
+            return ref_serve(routers, tag - 1000, rest, isdir, method, depth + 1)
+        return (tag, "/".join(rest), "e:" + e if e else "nil")
+
+    def notfound(rest):
+        return call(r["default"], rest) if r["default"] is not None else (-1, "", "miss")
+    if not rest:
+        return call(r["index"], rest) if r["index"] is not None else notfound(rest)
+    for k in range(len(rest), 0, -1):
+        n = r["nodes"].get(tuple(rest[:k]))
+        if n is None:
+            continue
+        isd, m, h = n
+        rem = rest[k:]
+        if isd or (not rem and not isdir):
+            if m != "" and m != method:
+                return (-1, "", "badmethod")
+            return call(h, rem)
+        return notfound(rem)
+    return notfound(rest)
+
+
+def oracle_router(c, sets):
+    o = c["obs"]
+    routers, bad = ref_routers(c, o.get("roks") or [])
+    if bad:
+        return bad
     for q, got in zip(c.get("reqs") or [], o.get("reqs") or []):
         p = q["path"]
-        want = serve(0, segs(p), p.endswith("/"), q["method"], 0)
+        want = ref_serve(routers, 0, segs(p), p.endswith("/"), q["method"])
         g = (got["tag"], got.get("rel", ""), got["err"])
         if g != want:
             return ("request %s %r reached handler %d (rel %r, result %s); longest-route rule gives handler %d "
-                    "(rel %r, result %s)" % ((q["method"], p) + g + want), {"req": q, "got": g, "want": want})
+                    "(rel %r, result %s)" % ((q["method"], p) + g + want),
+                    {"req": q, "got": g, "want": want, "class": "panic" if got["err"] == "panic" else "dispatch"})
+    return None
+
+
+HEX = "0123456789abcdefABCDEF"
+
+
+def py_unescape(t):
+    """%XX -> byte (latin-1 lifted); None on a malformed escape."""
+    out, i = [], 0
+    while i < len(t):
+        if t[i] == "%":
+            if len(t) - i < 3 or t[i + 1] not in HEX or t[i + 2] not in HEX:
+                return None
+            out.append(chr(int(t[i + 1:i + 3], 16)))
+            i += 3
+        else:
+            out.append(t[i])
+            i += 1
+    return "".join(out)
+
+
+def py_parse(q):
+    """What a Go http.Server hands to the handler for this request line: ("bad",) = 400 before the
+    handler, ("options",) = the server's own 200 for OPTIONS *, ("req", URL.Path, Req.Host)."""
+    t, m, host = q["target"], q["method"], q.get("host")
+    connect = m == "CONNECT"
+    if connect and not t.startswith("/"):
+        t = "http://" + t
+    if any(ord(ch) < 32 or ord(ch) == 127 for ch in t) or t == "":
+        return ("bad",)
+    if t == "*":
+        uhost, path = "", "*"
+    elif t.startswith("http://"):
+        rest = t[len("http://"):].split("?", 1)[0]
+        k = rest.find("/")
+        uhost, raw = (rest, "") if k < 0 else (rest[:k], rest[k:])
+        path = py_unescape(raw)
+    elif t.startswith("/"):
+        uhost, path = "", py_unescape(t.split("?", 1)[0])
+    else:
+        return ("bad",)
+    if path is None:
+        return ("bad",)
+    if not q.get("p10") and not connect and host is None:
+        return ("bad",)                                          # missing required Host header
+    if m == "OPTIONS" and q["target"] == "*":
+        return ("options",)
+    return ("req", path, uhost if uhost else (host or ""))
+
+
+def oracle_entry(c, sets):
+    """The request line decides: routed string = unescaped URL.Path, segments = its non-empty pieces,
+    host key = the Host header exactly as sent (or the absolute-form authority)."""
+    o = c["obs"]
+    routers, bad = ref_routers(c, o.get("roks") or [])
+    if bad:
+        return bad
+    table = {}
+    for h in c.get("hsets") or []:
+        table[h["h"]] = h["f"]
+    for q, got in zip(c.get("raws") or [], o.get("entry") or []):
+        pr = py_parse(q)
+        if pr[0] != "req":
+            want = (400 if pr[0] == "bad" else 200, False)
+            if (got["status"], got["reached"]) != want:
+                return ("request line %r %r: status %d, handler reached: %s; expected status %d without reaching "
+                        "the handler" % (q["method"], q["target"], got["status"], got["reached"], want[0]),
+                        {"raw": q, "got": got, "class": "parse"})
+            continue
+        _, path, host = pr
+        sg = segs(path)
+        if c.get("hmux"):
+            j = table.get(host)
+            res = ref_serve(routers, j, sg, path.endswith("/"), q["method"]) if j is not None else (-1, "", "miss")
+        else:
+            res = ref_serve(routers, 0, sg, path.endswith("/"), q["method"])
+        want = {"status": STATUS.get(res[2], -1), "reached": True, "path": path, "segs": sg,
+                "isdir": path.endswith("/"), "host": host, "tag": res[0], "rel": res[1]}
+        if got != want:
+            diff = sorted(k for k in want if got.get(k) != want[k])
+            cls = "host" if diff == ["status", "tag"] and c.get("hmux") and got["host"] == host and \
+                (got["tag"] == -1) != (res[0] == -1) else ("path" if "path" in diff or "segs" in diff else "dispatch")
+            return ("request line %s %r (Host %r): aries saw path %r segments %r host %r and reached handler %d "
+                    "(rel %r, status %d); the request line gives path %r segments %r host %r, handler %d (rel %r, "
+                    "status %d)" % (q["method"], q["target"], q.get("host"), got["path"], got["segs"], got["host"],
+                                    got["tag"], got["rel"], got["status"], path, sg, host, res[0], res[1],
+                                    want["status"]),
+                    {"raw": q, "got": got, "want": want, "differs": diff, "class": cls})
     return None
 
 
@@ -330,6 +459,9 @@ def is_admin(c, u, l):
 def oracle_tiers(c, sets):
     o = c["obs"]
     first_gated = True
+    # handlers that do not modify the identity fields: then EVERY guest/user/admin invocation of
+    # ServeInternal must see an admin, not only the first
+    frame = not any(b.get("set") for b in c["tiers"][1:3])
     for e in o.get("trace") or []:
         t = e["t"]
         if not c.get("internal"):
@@ -338,7 +470,7 @@ def oracle_tiers(c, sets):
             if t == "admin" and not is_admin(c, e["u"], e.get("l", 0)):
                 return "the admin tier ran for a non-admin request", {"event": e, "class": "admin-tier-nonadmin"}
         elif t in ("guest", "user", "admin"):
-            if first_gated and not is_admin(c, e["u"], e.get("l", 0)):
+            if (first_gated or frame) and not is_admin(c, e["u"], e.get("l", 0)):
                 return ("ServeInternal ran the %s tier for a non-admin request" % t,
                         {"event": e, "class": "internal-%s-tier-nonadmin" % t})
             first_gated = False
@@ -357,7 +489,7 @@ def oracle_host(c, sets):
 
 
 ORACLES = {"mux": oracle_mux, "trie": oracle_trie, "seg": oracle_seg, "router": oracle_router,
-           "tiers": oracle_tiers, "host": oracle_host}
+           "tiers": oracle_tiers, "host": oracle_host, "entry": oracle_entry}
 
 
 def impl_oracle(c, sets):
@@ -400,6 +532,9 @@ def tally(dist, c):
     elif k == "host":
         for t in o.get("hosts") or []:
             bump("host:hit" if t >= 0 else "host:miss")
+    elif k == "entry":
+        for e in o.get("entry") or []:
+            bump("entry:status-%d%s" % (e["status"], "" if e["reached"] else "-by-net/http"))
 
 
 def case_key(c):
@@ -414,7 +549,7 @@ def trivial(c):
         return not c.get("adds")
     if k == "seg":
         return not c.get("sadds")
-    if k == "router":
+    if k in ("router", "entry"):
         return not any(d["ops"] for d in c["routers"])
     if k == "host":
         return not c.get("hsets")
@@ -451,7 +586,7 @@ def variants(c):
             yield d
     k = c["kind"]
     lists = {"mux": ("ops", "paths"), "trie": ("adds", "paths"), "seg": ("sadds", "sq"),
-             "router": ("reqs",), "host": ("hsets", "hreqs")}.get(k, ())
+             "router": ("reqs",), "entry": ("raws",), "host": ("hsets", "hreqs")}.get(k, ())
     for f in lists[1:] if len(lists) > 1 else lists:
         seq = c.get(f) or []
         if len(seq) > 1:                      # keep a single request
@@ -459,9 +594,11 @@ def variants(c):
                 d = json.loads(json.dumps(c))
                 d[f] = [seq[i]]
                 yield d
-    if lists and k != "router":
+    if lists and k not in ("router", "entry"):
         yield from drop(lists[0])
-    if k == "router":
+    if k == "entry":
+        yield from drop("hsets")
+    if k in ("router", "entry"):
         for ri, r in enumerate(c["routers"]):
             for oi in range(len(r["ops"])):
                 d = json.loads(json.dumps(c))
@@ -488,7 +625,7 @@ def shrink(binp, c, sets, rounds=60):
 
 
 HEADER = ("From Coq Require Import List NArith ZArith.\n"
-          "From Verif Require Import Aries.Str Aries.Radix Aries.SegTrie Aries.Router Aries.Tiers Aries.Corr.\n"
+          "From Verif Require Import Aries.Str Aries.Radix Aries.SegTrie Aries.Router Aries.Tiers Aries.Entry Aries.Corr.\n"
           "Import ListNotations.\nLocal Open Scope N_scope.\n")
 
 
@@ -561,6 +698,32 @@ def run(ck):
         for line in out.splitlines():
             if line.startswith("{"):
                 cases.append(json.loads(line))
+
+    # scope "register everything, then serve": concurrent SERVING on a finished structure must be
+    # read-only; run a slice of the cases from 8 goroutines under the race detector
+    conc_n = 25 if not ck.thorough else 400
+    racebin = ck.build_harness("c20", race=True)
+    if racebin:
+        rc, out, err = vlib.sh2([racebin, "-seed", str(ck.seed), "-tier", "quick", "-conc", str(conc_n)], timeout=1500)
+        nconc = 0
+        for line in out.splitlines():
+            if not line.startswith("{"):
+                continue
+            r = json.loads(line)
+            nconc += 1
+            ck.count("conc", key=("conc", r["i"]))
+            if not r.get("same"):
+                ck.violation("impl:conc:different-answer",
+                             "a request was answered differently while other requests were being served",
+                             {"case_index": r["i"], "kind": r["kind"], "stream": r.get("from")})
+        if "DATA RACE" in err or "concurrent map" in err or rc == 66:
+            m = err[err.find("WARNING: DATA RACE"):][:1800]
+            ck.violation("impl:conc:data-race",
+                         "serving requests concurrently on a finished Mux/Router/HostMux/Trie is a data race",
+                         {"race_report": m, "cmd": "c20-race -seed %d -conc %d" % (ck.seed, conc_n)})
+        elif rc != 0:
+            ck.broken.append({"what": "race harness run failed", "detail": err[-1500:]})
+        ck.coverage["concurrent_serving_cases"] = nconc
 
     # implementation-only oracle: the property read off the observed dispatch
     bad = set()
@@ -660,6 +823,11 @@ def run(ck):
              "bytes, duplicates, empty strings); segment-trie route sets over {a,b}^(0..3) x all queries of depth "
              "<=4 plus malformed segments; random router sets (file/dir/method/index/default, nested routers) x "
              "paths with trailing/repeated slashes; all (identity, IsAdmin, auth, tier nil/miss/hit, path, entry) "
-             "combinations; host sets. distinct = distinct case inputs; trivial = no registration at all",
-        assumptions=["IsAdmin callbacks and handlers are functions of (User, UserLevel, Path)",
+             "combinations; host sets; raw request lines (escapes, slashes, *, CONNECT, absolute-form, Host variants, "
+             "HTTP/1.0) over TCP to a real http.Server in front of HostMux+Routers with failing leaves; nil handlers and "
+             "JSONCall/Call wrappers; 200 finished structures served from 8 goroutines under -race. "
+             "distinct = distinct case inputs; trivial = no registration at all",
+        assumptions=["registration is finished before serving starts (the code has no lock; checked: no serving method "
+                     "writes, no registration from a handler or goroutine anywhere in the repository)",
+                     "IsAdmin callbacks and handlers are functions of (User, UserLevel, Path)",
                      "Go map lookup/store semantics", "a tier handler returning exactly aries.Miss means miss"])
